@@ -23,7 +23,9 @@ func exhaustiveSets(depth int) [][]string {
 		"addhard=" + c3 + "=796b", "remove=" + c1, "remove=k1", "removeall", "lock=7077", "unlock=7077", "unlock=6e6f", "uadd=k1:-", "uadd=" + c1 + ":63", "uadd=" + c5 + ":63", "sign=" + c5,
 		"uremove=k1", "uremoveall", "forward=c80102", "list!fail:list", "list!fail:remove", "sign=" + c1 + "!fail:sign", "addhard=" + c1 + "=-!fail:list",
 		// a lock / unlock / add / remove-all that the underlying agent refuses (it still answers everything else)
-		"lock=7077!fail:lock", "unlock=7077!fail:unlock", "add=" + c4 + ":63!fail:add", "removeall!fail:removeall"}
+		"lock=7077!fail:lock", "unlock=7077!fail:unlock", "add=" + c4 + ":63!fail:add", "removeall!fail:removeall",
+		// closing the shim (refused while locked; afterwards every request fails)
+		"close"}
 	starts := []string{"-", "k1:-", "k1:-," + c1 + ":63", "k1:-," + c2 + ":-,k2:6b"}
 	var seqs [][]string
 	var rec func(prefix []string)
@@ -201,6 +203,9 @@ func genOne(g *hx.Gen, i int) []string {
 		pass = append(pass, strings.Repeat("q", n), strings.Repeat("q", n))
 	}
 	locked, lockPass := false, ""
+	// a quarter of the histories may close the shim; they use no fault that makes the client give up
+	// on the connection (what a second close of a connection returns is not part of the statement)
+	mayClose := g.Intn(4) == 0
 	for j := 0; j < nops; j++ {
 		var op string
 		if locked && g.Intn(5) == 0 { // get out of the locked state with the right passphrase most of the time
@@ -257,9 +262,15 @@ func genOne(g *hx.Gen, i int) []string {
 			op = "forward=" + hx.Hex(append([]byte{200}, body...))
 			if g.Intn(4) == 0 {
 				op += "!" + g.Pick([]string{"fail:forward", "oversize:forward", "oversize2:forward", "oversize3:forward", "oversize4:forward", "close"})
+				if mayClose {
+					op = strings.SplitN(op, "!", 2)[0] + "!fail:forward"
+				}
 			}
 		default:
 			op = "list"
+			if mayClose && (locked || g.Intn(3) == 0) {
+				op = "close"
+			}
 		}
 		if hasLapse && !slept && j == nops/2 {
 			ops = append(ops, "sleep=5")
@@ -271,7 +282,12 @@ func genOne(g *hx.Gen, i int) []string {
 			if g.Intn(40) == 0 && hx.Want("weird") && *hx.Only != "" {
 				f = "weird:" + []string{"list", "sign"}[g.Intn(2)]
 			}
-			op += "!" + f
+			if mayClose && (f == "close" || strings.HasPrefix(f, "oversize") || strings.HasPrefix(f, "garbage")) {
+				f = "fail:list"
+			}
+			if op != "close" {
+				op += "!" + f
+			}
 		}
 		ops = append(ops, op)
 	}
